@@ -1,7 +1,8 @@
 """C04 — parallel string sort: no use of a self-deleting step after a release point,
 add-before-enqueue, counters decided by their own RMW, phase arming, completion barrier,
 copy_back on all paths of the leaf sorter and before every range is reported finished (ctx.donesize),
-the classifier's descent routines agree with the bucket numbering (CLASSIFY-BUCKET), work sharing retires the level it gives away (FRONT-LEVEL).
+the classifier's descent routines agree with the bucket numbering (CLASSIFY-BUCKET), the packed byte build() writes per splitter holds the
+`key ends in the terminator` flag and the common prefix with the splitter before (SPLITTER-LCP-FLAGS), work sharing retires the level it gives away (FRONT-LEVEL).
 
 Verdict policy of this file: a violation is reported only on positive evidence (a CFG path, a row of a small
 decision table, a counted registration balance, a constant mask that differs from the builder's); a shape that is
@@ -2720,6 +2721,164 @@ def bind_routine(fn, key_ty):
 VEC_SLOTS = 64
 
 
+# ---------------------------------------------------------------------------------------------- SPLITTER-LCP-FLAGS
+# build() hands the sorters one packed byte per splitter (splitter_lcp[j], paired with get_splitter(j): the sorters read splitter_lcp[b / 2]
+# next to get_splitter(b / 2) for bucket b).  Both builders (SSTreeBuilderPreAndLevelOrder, SSTreeBuilderLevelOrder) write, in the order of
+# the splitters,  clz(previous splitter ^ splitter) / 8 | ((splitter & 0xFF) ? 0 : 0x80)  and then clear the low seven bits of byte 0:
+#   bit 7      set exactly when the least significant byte of the splitter key is zero (the key holds the string terminator: the sorters
+#              then take the equal bucket 2j+1 as finished instead of sorting it from depth + sizeof(key) on, behind the terminators),
+#   bits 0..6  the number of common leading bytes of splitter j-1 and splitter j (the depth bucket 2j is sorted from), 0 for j = 0.
+# The rule evaluates build() (same Machine as CLASSIFY-BUCKET) on the sample of CLASSIFY-BUCKET and on four more sorted samples of distinct
+# keys made up such that the smallest and the largest splitter occur with and without a zero low byte and that neighbouring splitters share
+# 0 .. sizeof(key)-1 leading bytes, reads the bytes back and compares each with the value computed from get_splitter(j-1), get_splitter(j).
+def _spread(g, nbits, per, nbytes):
+    """the nbits-bit number g laid out over nbytes bytes, `per` bits per byte used, the bytes used spaced evenly from the most significant
+    one down to the least significant one (order preserving)"""
+    ngroups = -(-nbits // per)
+    g <<= per * ngroups - nbits
+    out = 0
+    for t in range(ngroups):                # t = 0: the most significant group
+        pos = nbytes - 1 - (t * (nbytes - 1)) // max(ngroups - 1, 1)
+        out |= ((g >> (per * (ngroups - 1 - t))) & ((1 << per) - 1)) << (8 * pos)
+    return out
+
+
+def _lcp_family(nsamp, idx, zero, share, kbytes):
+    """sorted distinct keys for the samples 0..nsamp-1: the samples idx[j] (the ones build() picks as splitter j) get a zero low byte for j in
+    `zero` and share all bytes but the last with splitter j-1 for j in `share`; None if that cannot be laid out"""
+    k = len(idx)
+    joined = set()
+    for j in share:
+        if j == 0 or j in zero or idx[j] <= idx[j - 1]:
+            return None
+        joined.update(range(idx[j - 1] + 1, idx[j] + 1))
+    zero_at = set(idx[j] for j in zero)
+    nbits = (nsamp + 1).bit_length()
+    per = -(-nbits // (kbytes - 1))
+    if per > 8:
+        return None
+    keys, g, p = [], 0, 0
+    for i in range(nsamp):
+        if i in joined:
+            p += 1
+        else:
+            g, p = g + 1, 0
+        lo = 0 if i in zero_at else 3 + 4 * p
+        if lo > 255 or (lo == 0 and p):
+            return None
+        keys.append((_spread(g, nbits, per, kbytes - 1) << 8) | lo)
+    if any(keys[i] >= keys[i + 1] for i in range(nsamp - 1)) or keys[0] == 0:
+        return None
+    return keys
+
+
+def _common_bytes(a, b, kbytes):
+    n = 0
+    while n < kbytes and (a >> (8 * (kbytes - 1 - n))) & 0xFF == (b >> (8 * (kbytes - 1 - n))) & 0xFF:
+        n += 1
+    return n
+
+
+def _build_once(tu, rec0, build, gets, key_ty, k, keys):
+    """build() evaluated on the sorted sample `keys` in a fresh object: ([get_splitter(j)], [splitter_lcp[j]])"""
+    m = Machine(tu, build)
+    for f in rec0.get("fields", []):
+        a = _ARR.search(f.get("ty") or "")
+        m.env[("field", f["name"])] = m.alloc(int(a.group(1)), UNWRITTEN) if a else None
+    samples = m.alloc(len(keys), lambda i: keys[i])
+    lcp = m.alloc(k + 1)
+    vals = []
+    for p in build.params:
+        pt = _ptr_to(p.get("ty"))
+        if pt is not None and pt[0] == key_ty:
+            vals.append(samples)
+        elif pt is not None and _int_type(pt[0]) == (False, 8) and not pt[1]:
+            vals.append(lcp)
+        elif pt is None and _int_type(p.get("ty")) is not None:
+            vals.append(len(keys))
+        else:
+            raise Undecidable("%s: the parameters of build() are not (samples, number of samples, splitter LCP array)" % build.loc)
+    if sorted(vals) != sorted([samples, lcp, len(keys)]):
+        raise Undecidable("%s: the parameters of build() are not (samples, number of samples, splitter LCP array)" % build.loc)
+    try:
+        m.call(build, None, values=vals)
+        spl = [m.call(gets, None, values=[j]) for j in range(k)]
+    except skel.Diverges as d_:
+        raise Undecidable("%s: a loop of the classifier does not end in the evaluation" % build.nloc(d_.loop))
+    return spl, [m.mem.get(lcp + j) for j in range(k)]
+
+
+def check_splitter_lcp(ck, tu, rec, short, rec0, build, gets, key_ty, k, nsamp, sample0, spl0, packed0):
+    """spl0 / packed0: what the evaluation of CLASSIFY-BUCKET found for its own sample (splitters known to be increasing samples)"""
+    kbytes = _int_type(key_ty)[1] // 8
+    if kbytes < 2 or k < 3:
+        raise Undecidable("%s: %s has keys of %d byte(s) / %d splitter(s); the samples of SPLITTER-LCP-FLAGS need two bytes and three splitters"
+                          % (build.loc, short, kbytes, k))
+    where0 = dict((sample0(i), i) for i in range(nsamp))
+    idx = [where0[v] for v in spl0]
+    last = k - 1
+    plans = [("the sample of CLASSIFY-BUCKET", None)]
+    for name, zero, share in (
+            ("even splitters end in a zero byte", set(j for j in range(k) if j % 2 == 0), set(j for j in range(k) if j % 4 == 3 and j != last)),
+            ("odd splitters end in a zero byte", set(j for j in range(k) if j % 2 == 1 and j != last), set(j for j in range(1, k) if j % 4 == 2)),
+            ("the smallest and every third splitter end in a zero byte", (set(j for j in range(k) if j % 3 == 1) | {0}) - {last}, set(j for j in range(1, last) if j % 5 == 4)),
+            ("the largest and every third splitter end in a zero byte", (set(j for j in range(k) if j % 3 == 2) | {last}) - {0}, set(j for j in range(1, last) if j % 5 == 3))):
+        share = set(j for j in share if j not in zero and j - 1 not in share)
+        plans.append((name, (zero, share)))
+    seen_first, seen_last, seen_lcp, n_bytes = set(), set(), set(), 0
+    for name, plan in plans:
+        if plan is None:
+            spl, packed = spl0, packed0[:k]
+        else:
+            keys = _lcp_family(nsamp, idx, plan[0], plan[1], kbytes)
+            if keys is None:
+                raise Undecidable("%s: no sorted sample with the wanted splitter keys can be laid out for the splitters build() picks (%s)" % (build.loc, name))
+            try:
+                spl, packed = _build_once(tu, rec0, build, gets, key_ty, k, keys)
+            except EvalFault as f_:
+                ck.violation("SPLITTER-LCP-FLAGS", build.qname, "%s:fault" % rec.split("::")[-1],
+                             "the evaluation of build() on %d sorted distinct samples (%s) reaches %s" % (nsamp, name, f_), build.loc)
+                return
+            if any(not isinstance(v, int) or isinstance(v, bool) for v in spl) or any(spl[j] <= spl[j - 1] for j in range(1, k)):
+                raise Undecidable("%s: get_splitter() does not yield increasing keys after build() on the sample `%s`; the packed bytes are "
+                                  "not compared" % (gets.loc, name))
+        for j in range(k):
+            v = packed[j]
+            if not isinstance(v, int) or isinstance(v, bool):
+                raise Undecidable("%s: splitter_lcp[%d] has no value after build() in the evaluation (%s)" % (build.loc, j, name))
+            done = spl[j] & 0xFF == 0
+            common = _common_bytes(spl[j - 1], spl[j], kbytes) if j else 0
+            want = common | (0x80 if done else 0)
+            if j == 0:
+                seen_first.add(done)
+            if j == last:
+                seen_last.add(done)
+            seen_lcp.add(common)
+            n_bytes += 1
+            if v == want:
+                continue
+            parts = []
+            if (v & 0x80) != (want & 0x80):
+                parts.append("bit 7 (the equal bucket %d is finished: the key holds the string terminator) is %s, but the low byte of the key is %s"
+                             % (2 * j + 1, "set" if v & 0x80 else "clear", "zero" if done else "not zero")
+                             + ("; the sorters then sort that bucket from depth + %d on, behind the terminators" % kbytes if done else
+                                "; the sorters then take that bucket as finished although its strings go on"))
+            if (v & 0x7F) != (want & 0x7F):
+                parts.append("bits 0..6 (the depth bucket %d is sorted from) are %d, but %s"
+                             % (2 * j, v & 0x7F, ("splitter %d = 0x%0*x and splitter %d share %d leading byte(s)" % (j - 1, 2 * kbytes, spl[j - 1], j, common))
+                                if j else "bucket 0 has no splitter below it (0 required)"))
+            ck.violation("SPLITTER-LCP-FLAGS", build.qname, "%s:byte" % rec.split("::")[-1],
+                         "after build() on %d sorted distinct samples (%s) splitter %d = 0x%0*x has the packed byte splitter_lcp[%d] = 0x%02x, "
+                         "required 0x%02x: %s" % (nsamp, name, j, 2 * kbytes, spl[j], j, v, want, "; ".join(parts)), build.loc)
+            return
+    if seen_first != {True, False} or seen_last != {True, False} or not {0, kbytes - 1} <= seen_lcp or len(seen_lcp) < min(kbytes, 3):
+        raise Undecidable("%s: the samples of SPLITTER-LCP-FLAGS do not show the smallest / largest splitter of %s with and without a zero low "
+                          "byte and common prefixes from 0 to %d (seen: %s)" % (build.loc, short, kbytes - 1, sorted(seen_lcp)))
+    ck.ok("SPLITTER-LCP-FLAGS", short, "%d packed bytes of %d splitters over %d samples of %d keys: bit 7 <=> low byte of the splitter is zero, "
+          "bits 0..6 = common leading bytes with the splitter before (0 for the first); smallest and largest splitter with and without a zero "
+          "low byte, common prefixes %s" % (n_bytes, k, len(plans), nsamp, sorted(seen_lcp)))
+
+
 def check_classifier(ck, tu):
     n_inst = 0
     for (rec, targs), fns in sorted(classifier_classes(tu).items()):
@@ -2799,6 +2958,8 @@ def check_classifier(ck, tu):
                          "samples in increasing order, on which the numbering of the buckets (2j: between splitters j-1 and j, 2j+1: equal to "
                          "splitter j) rests" % (nsamp, max(j - 1, 0), spl[max(j - 1, 0)], j, spl[j]), gets.loc)
             continue
+        # ---- the packed bytes build() wrote next to the splitters (SPLITTER-LCP-FLAGS; a gap there leaves CLASSIFY-BUCKET as it is)
+        ck.guarded(lambda: check_splitter_lcp(ck, tu, rec, short, recs[0], build, gets, key_ty, k, nsamp, sample, spl, packed))
         # ---- every position of a key relative to the splitters
         keys = []
         for j in range(k):
@@ -3284,6 +3445,8 @@ def run(ck):
         "the first one is enqueued); COMPLETION-BARRIER; COPY-BACK on all paths of the leaf sorter and on every path to a ctx.donesize() report "
         "of a range that is not handed on; CLASSIFY-BUCKET (every descent routine whose result classify() stores computes bucket = 2 * #{splitters < key} + "
         "[key is a splitter] - evaluated on the tree that build() makes of a sorted sample, for every position of a key relative to the splitters); "
+        "SPLITTER-LCP-FLAGS (the same evaluation of build(), on five sorted samples: splitter_lcp[j] has bit 7 set exactly when the low byte of get_splitter(j) is zero "
+        "and holds in bits 0..6 the number of common leading bytes of get_splitter(j-1) and get_splitter(j), 0 for j = 0); "
         "FRONT-LEVEL (work sharing hands out the buckets of the level at the front cursor of a stack and retires exactly that level). Two genuine use-after-free defects were found "
         "(distribute_finished, loop bound re-read after the last enqueue) and fixed. The ThreadPool itself is C10.")
     tu = ir.extract("witness/C04_parallel_sample_sort.cpp")
@@ -3336,6 +3499,7 @@ def run(ck):
     ck.guarded(lambda: ck.require(check_array_bounds(ck, tu) >= 10, "fixed-size arrays of the sample sort classes not found"))
     ck.guarded(lambda: ck.require(check_front_level(ck, tu) >= 2, "no function that advances a front cursor of a stack of levels found in PS5SmallsortJob"))
     ck.floor("CLASSIFY-BUCKET", 2)      # per class instance: the one-key and the interleaved descent of the default classifier
+    ck.floor("SPLITTER-LCP-FLAGS", 3)   # per classifier instance of the witness: TreeCalcUnrollInterleave<.., 10>, <.., 3>, TreeUnrollInterleave<.., 5>
     ck.floor("FRONT-LEVEL", 2)          # per function: sample_sort_free_work, mkqs_free_work
     ck.floor("PACKED-LCP-MASK", 12)
     ck.floor("USE-AFTER-RELEASE", 40)
